@@ -52,7 +52,7 @@ def model_check(tier):
     for ln in (r2.dir / "graph.dot").read_text().splitlines():
         if " -> " in ln and 'label="' in ln:
             labels.add(ln.split('label="', 1)[1].split('"', 1)[0].split("(")[0])
-    need = {"Pick", "TextChar", "Entity", "OpenAnchor", "HrefChar", "HrefEnd", "AttrStart", "AttrChar",
+    need = {"Pick", "TextChar", "Entity", "CutEntity", "OpenAnchor", "HrefChar", "HrefEnd", "AttrStart", "AttrChar",
             "AttrEnd", "TagClose", "CloseAnchor", "Reject"}
     extra["actions_covered"] = sorted(labels)
     if need - labels:
@@ -110,8 +110,8 @@ def gen_cases(tier, seed):
         add(case("tojson", v))
 
     # ---- xmlattr
-    keys = ["a", "b-c", "x y", "t\tb", "n\nl", "f\x0cf", "s/l", "g>t", "e=q", 'q"t', "l<t", "ap'os", "am&p",
-            "data-x", "x:y"]
+    keys = ["a", "b-c", "x y", "t\tb", "n\nl", "f\x0cf", "c\rr", "v\x0bt", "s/l", "g>t", "e=q", 'q"t', "l<t",
+            "ap'os", "am&p", "data-x", "x:y", "end ", "\rstart", "a\r\nb"]
     xvals = ["v", META, "", 5, None, 'a"b', "a b", "&amp;"]
     dicts = []
     for k in keys:
@@ -147,6 +147,19 @@ def gen_cases(tier, seed):
         ({"schemes": ["javascript:", "ftp://"], "rel": "'"}, "v|urlize(extra_schemes=schemes, rel=rel)", [],
          {"extra_schemes": "schemes", "rel": "rel"}),
     ]
+    # long URLs with metacharacters at every position of the displayed text, trimmed at many limits
+    # (the limit may fall before, inside or after an escaped character)
+    long_urls = ["http://example.com/?q=<script>alert(1)</script>&x=" + "a" * 30,
+                 "https://b.org/p?q=1&r=2&s='3'&t=\"4\"<5>" + "z" * 10,
+                 "www.a.com/<b>&\"'/" + "y" * 12,
+                 "http://a.com/" + "&" * 8 + "<>" * 4,
+                 "(http://a.com/x?<i>=1&&)", "x@y.org", "mailto:x@y.org"]
+    for u in long_urls:
+        for lim in ([5, 14, 17, 23, 24, 25, 26, 27, 30, 45] if quick else range(1, 60)):
+            full = {"trim": lim, "nofollow": False, "target": None, "rel": None, "schemes": None}
+            add(case("urlize", u, full, "v|urlize(trim)", ["trim"], {}))
+            add(case("urlize", "see " + u + " now", dict(full, nofollow=True), "v|urlize(trim, nofollow)",
+                     ["trim", "nofollow"], {}))
     for i, txt in enumerate(texts):
         for j, (a, tmpl, pos, kw) in enumerate(argsets):
             if i > 600 and (i + j) % 3:
@@ -202,7 +215,7 @@ def gen_cases(tier, seed):
 
 EXCLUDED = [
     "Markup (declared-safe) values handed to xmlattr / urlize / tojson",
-    "xmlattr keys containing \\r, \\x0b or non-ASCII whitespace (rejected by the code, not named by the docs); empty keys",
+    "xmlattr keys containing non-ASCII whitespace; empty keys",
     "tojson: floats, non-string dict keys, non-ASCII text, control characters other than \\n, indent argument",
     "Markup-argument rule: arguments that are themselves Markup; replace with an empty `old`; truncate "
     "cutting through an entity of the subject; wordwrap widths that actually wrap",
